@@ -173,9 +173,9 @@ def tasks(tier):
     b = BOUNDS[tier]
     fams = [(sec, oi, "std") for sec in b["sections"] for oi in b["optsets"]]
     if tier == "quick":
-        fams += [("P", 1, "dupnull"), ("P", 0, "unitlonger"), ("P", 1, "nounit")]
+        fams += [("P", 1, "dupnull"), ("P", 0, "unitlonger"), ("P", 1, "nounit"), ("P", 0, "emptystep")]
     else:
-        fams += [("P", oi, bs) for oi in (0, 1) for bs in ("dupnull", "unitlonger", "nounit")]
+        fams += [("P", oi, bs) for oi in (0, 1) for bs in ("dupnull", "unitlonger", "nounit", "emptystep")]
     def cap_of(sec, oi, bs):
         caps = b.get("caps")
         if not caps:
@@ -191,6 +191,10 @@ def tasks(tier):
 ALT = {
     "unitlonger": {"W": ["~Well", "STRT.M 1670.125 : s", "STOP.M 1670.25 : e", "STEP.M 0.125 : i", "NULL. -999.25 : n"], "C": ["~Curve", "DEPT.METRES : depth", "GR.API : g"],
                    "P": ["~Parameter", "NE.k : empty value with unit"], "A": ["~A", "1670.125 10.5", "1670.25 11.5"]},
+    # STEP without unit and without value, STOP agreeing with the data (so nothing is recomputed): the writer first
+    # gives STEP the unit of the index curve and then turns the empty value into 0
+    "emptystep": {"W": ["~Well", "STRT.M 1670.125 : s", "STOP.M 1670.25 : e", "STEP. : i", "NULL. -999.25 : n"], "C": ["~Curve", "DEPT.M : depth", "GR.API : g"],
+                  "P": ["~Parameter", "NE.k : empty value with unit"], "A": ["~A", "1670.125 10.5", "1670.25 11.5"]},
     "nounit": {"W": ["~Well", "STRT. 1670.125 : s", "STOP. 1670.25 : e", "STEP. 0.125 : i", "NULL. -999.25 : n"], "C": ["~Curve", "DEPT.FT : depth", "GR.API : g"],
                "P": ["~Parameter", "NE.k : empty value with unit"], "A": ["~A", "1670.125 10.5", "1670.25 11.5"]},
 }
